@@ -1,7 +1,7 @@
 (* C19 -- supernova distance-modulus prediction equals its defining integral (partial).
    Property theorems only: each is closed by [exact] of a lemma proved in Proofs/, with
    Print Assumptions beneath it.  Subject: Model/Trapz.v (PanthLikelihood.get_pred / clear_data). *)
-From Coq Require Import ZArith QArith Reals List Bool Sorted.
+From Coq Require Import ZArith QArith Qreals Reals List Bool Sorted.
 From Coquelicot Require Import Coquelicot.
 From ESRV Require Import Model.Trapz Proofs.TrapzProofs Proofs.TrapzRealProofs.
 Import ListNotations.
@@ -203,6 +203,29 @@ Theorem C19_analytic_vs_numeric : forall (p : params RFld) (zs : list R) (hh : R
            Rabs (RInt g 1 z - Ti) <= K * h^2 * (z - 1) / 12).
 Proof. exact analytic_vs_numeric. Qed.
 Print Assumptions C19_analytic_vs_numeric.
+
+(* ---------------------------------------------------------------- the executable Q instance versus the R instance *)
+(* Q2R maps what the Q instance computes to what the R instance denotes (grid, mask, cumulative trapezoid,
+   mask look-up and broadcasting product); only 1/sqrt is approximated over Q *)
+Theorem C19_grid_Q2R : forall (p : params QFld) (zs : list Q), ~ (delta_z p == 0)%Q ->
+  @grid RFld (Q2Rp p) (map Q2R zs) = option_map (map Q2R) (@grid QFld p zs).
+Proof. exact grid_Q2R. Qed.
+Print Assumptions C19_grid_Q2R.
+
+Theorem C19_mask_Q2R : forall (xs zs : list Q), @mask_of RFld (map Q2R xs) (map Q2R zs) = @mask_of QFld xs zs.
+Proof. exact mask_Q2R. Qed.
+Print Assumptions C19_mask_Q2R.
+
+Theorem C19_cumtrapz_Q2R : forall (xs ys : list Q),
+  map Q2R (@cumtrapz QFld xs ys) = @cumtrapz RFld (map Q2R xs) (map Q2R ys).
+Proof. exact cumtrapz_Q2R. Qed.
+Print Assumptions C19_cumtrapz_Q2R.
+
+Theorem C19_take_bmul_Q2R : forall (cum : list Q) m (zs : list Q),
+  @bmul RFld (@take_mask RFld 0 (map Q2R cum) m) (map Q2R zs)
+  = option_map (map Q2R) (@bmul QFld (@take_mask QFld 0%Q cum m) zs).
+Proof. exact take_bmul_Q2R. Qed.
+Print Assumptions C19_take_bmul_Q2R.
 
 (* ---------------------------------------------------------------- non-vacuity and witnesses (executable instance) *)
 Local Open Scope Q_scope.
